@@ -46,7 +46,7 @@ func c17Prog(r *Rng, idx int) *Prog {
 			}
 		}
 		if r.Chance(1, 2) {
-			c.ArgComp = []string{"zeta", "alpha", "alpine", "co-static", "c"}
+			c.ArgComp = []string{"zeta", "alpha", "alpine", "co-static", "c", "nb\u00a0sp", "nb\u3000x"} // words may hold Unicode spaces the shell does not split on
 		}
 		if r.Chance(1, 4) {
 			c.ArgCompFn = []string{"dyn-one", "dyn-two"}
@@ -133,7 +133,7 @@ func c17LastWord(r *Rng, n *Node, pay *Payloads) (string, string) {
 		}
 		return "a", "word"
 	}
-	return r.Pick([]string{"a", "al", "z", "c", "co", "h", "he", "q", "dyn"}), "word"
+	return r.Pick([]string{"a", "al", "z", "c", "co", "h", "he", "q", "dyn", "n", "nb", "nb\u00a0", "nb\u00a0s", "nb\u3000"}), "word"
 }
 
 // c17Expect - expected candidates computed from the spec.
@@ -222,7 +222,7 @@ func init() {
 		Rule: "case = random tree (aliases, suggested/valid values, dynamic value and argument completion functions, wrappers, help) x COMP_LINE = program word + AST-rendered earlier words (options with values, command tokens; closed items) + last word from {empty, `-`, `--`, prefix of a key with one or two dashes, non-matching prefix, `--key=partial`, command prefix, other word} x bash/zsh; extra whitespace between words; " +
 			"distinct = (level, last-word class, target, item shapes); non-trivial = at least one candidate is expected. Domain (DESIGN N2): no require-order programs, earlier words end in a closed item and are written with `--` when the program's mode is not Normal.",
 		Assumptions: []string{"COMP_LINE words contain no whitespace (the library splits COMP_LINE on whitespace)"},
-		Cases:       func(tier string) int { return tierN(tier, 12000, 250000) },
+		Cases:       func(tier string) int { return tierN(tier, 12000, 1000000) },
 		Run: func(seed uint64, idx int, tier string) *fw.Result {
 			r := CaseRng(seed, "C17", idx)
 			p := c17Prog(r, idx)
